@@ -586,6 +586,14 @@ pub fn parse_compound_variable_index(
                 span,
             )))
         }
+        //the grammar also reads a decimal index (x_0.5, the way x_{0.5} is written back)
+        Rule::float => {
+            let span = InputSpan::from_pair(&compound_variable_index);
+            Ok(PreExp::Primitive(Spanned::new(
+                parse_number(&compound_variable_index)?,
+                span,
+            )))
+        }
         Rule::tagged_exp => parse_exp(compound_variable_index),
         _ => err_unexpected_token!(
             "Expected compound variable index but got: {}",
